@@ -12,8 +12,8 @@ export CARGO_TARGET_DIR=/tmp/cf/target-cache CARGO_NET_OFFLINE=true
 cd "$wt"
 git apply "$seed/patch.diff" || { echo "PATCH-DOES-NOT-APPLY"; exit 2; }
 if [ -f "$seed/demo_seed.rs" ]; then cp "$seed/demo_seed.rs" tests/demo_seed.rs; fi
-filter="-E not\ binary(demo_seed)"; [ -f tests/demo_seed.rs ] || filter=""
-suite=$(eval timeout 900 cargo nextest run --workspace --no-fail-fast --offline --test-threads 8 $filter 2>&1 | grep -E "Summary|error(\[|:)" | tail -2 | tr '\n' ' ')
+filter=(-E 'not binary(demo_seed)'); [ -f tests/demo_seed.rs ] || filter=()
+suite=$(timeout 900 cargo nextest run --workspace --no-fail-fast --offline --test-threads 8 "${filter[@]}" 2>&1 | grep -E "Summary|error(\[|:)" | tail -2 | tr '\n' ' ')
 if [ -f "$seed/demo/run.sh" ]; then
   cp -r "$seed/demo" demo
   with=$(cd "$wt" && (timeout 300 sh demo/run.sh >/tmp/cf/demo.out 2>&1; echo "exit=$?"; tail -2 /tmp/cf/demo.out | tr '\n' ' ') | sed 's/exit=0/passed exit=0/; s/exit=[1-9][0-9]*/failed &/')
